@@ -5,6 +5,7 @@ from ..index import AnalysisError, attr_chain, norm, own_nodes
 from ..query import calls_in, call_name, is_value_yield
 from ..condeval import check_cond, ev, Unknown
 from .common import TLSCONN, TLSREC, RECLAYER, consumes_of, nodes_with_call, must_pass, dead_edge_labels
+from .common import borrowed
 from . import c01shared
 
 EXPLANATION = (
@@ -130,7 +131,7 @@ def rule_frag(ctx):
                    and e["self._recordLayer.isCBCMode()"] and e["msg.contentType"] == 23,
                    "1/n-1 split applied to CBC application data in <= TLS 1.0",
                    "the first-byte split applies exactly to application data under a CBC suite in SSLv3/TLS 1.0")
-        empty = [s for s in beast[0].body if isinstance(s, ast.If) and norm(s.test) == "len(msg.write()) == 0"
+        empty = [s for s in beast[0].body if isinstance(s, ast.If) and norm(s.test) == "not msg.write()"
                  and isinstance(s.body[0], ast.Return)]
         ctx.check(R, len(empty) == 1, fi.qname, "nothing more is sent when the split consumed the whole message",
                   "after the first-byte split an empty remainder must not be sent again", fi.loc(beast[0]))
@@ -481,4 +482,8 @@ RULES = [
     ("C01.FIFO", "quick", rule_fifo),
     ("C01.OWN", "quick", rule_own),
     ("C01.SHARED", "quick", rule_shared),
+    # every record a peer may legally send is delivered: empty records, records at the length limits
+    ("C01.LENGTHS", "quick", borrowed("c02", "rule_lengths", "C02.LENGTHS", "C01.LENGTHS")),
+    # the byte stream survives key updates: both directions keep the secret that belongs to them
+    ("C01.KU", "quick", borrowed("c16", "rule_ku", "C16.KU", "C01.KU")),
 ]
